@@ -41,14 +41,14 @@ func (C19) Plan(tier string) core.Plan {
 
 func (C19) Info() core.Info {
 	return core.Info{
-		Rule: "seeded histories of 5-60 operations (Add, AddOverwrite, AddEdge, AddEdgeWeighted, RemoveEdge, Remove, Copy, Reverse) over a pool of <=8 vertices (int, string, hash-code vertices incl. distinct Go values with one hash code) and a growing family of live handles (original, copies, reversed views, copies of views); after every operation every handle is compared with its adjacency model (vertex set and representative, successor and predecessor sets, mirror, weights via String() and a one-source Dijkstra). Non-trivial: history contains a Copy or Reverse and a removal; distinct = distinct (history hash, event-log hash)",
+		Rule: "seeded histories of 5-60 operations (Add, AddOverwrite, AddEdge, AddEdgeWeighted, RemoveEdge, Remove, Copy, Reverse) over a pool of <=8 vertices (int, string, hash-code vertices incl. distinct Go values with one hash code) and a growing family of live handles (original, copies, reversed views, copies of views); after every operation every handle is compared with its adjacency model (vertex set and representative, successor and predecessor sets, mirror, weights via String() and, while all weights are non-negative, a one-source Dijkstra); a quarter of the histories also set negative weights, as the resolver does. Non-trivial: history contains a Copy or Reverse and a removal; distinct = distinct (history hash, event-log hash)",
 		Assumptions: []string{
 			"edges are only added between vertices present in the graph (adding an edge to an absent vertex is outside the statement: documented as a no-op, it panics on a nil map today)",
 			"Reverse is only taken of a graph that already holds a vertex (a zero-value Graph has no maps to share yet)",
 			"no fault kind applies to this property; S1 only permutes the order of returned slices, which are compared as sets",
 		},
-		Probes: []string{"c19_ops", "c19_copy", "c19_rev", "c19_rm_with_edges", "c19_overwrite_with_edges", "c19_weight_overwritten", "c19_mutation_through_view"},
-		Real:   []string{"internal/graph (woven copy): Add, AddOverwrite, AddEdge, AddEdgeWeighted, RemoveEdge, Remove, Vertex, Vertices, OutEdges, InEdges, Copy, Reverse, String, Dijkstra"},
+		Probes:    []string{"c19_ops", "c19_copy", "c19_rev", "c19_rm_with_edges", "c19_overwrite_with_edges", "c19_weight_overwritten", "c19_mutation_through_view", "c19_negative_weight"},
+		Real:      []string{"internal/graph (woven copy): Add, AddOverwrite, AddEdge, AddEdgeWeighted, RemoveEdge, Remove, Vertex, Vertices, OutEdges, InEdges, Copy, Reverse, String, Dijkstra"},
 		Simulated: []string{"map iteration order at every range site (S1)"},
 	}
 }
@@ -64,6 +64,7 @@ func (C19) Gen(r *simrt.RNG, tier string) core.Case {
 		c.Kinds = append(c.Kinds, k)
 	}
 	n := 5 + r.Intn(56)
+	negW := r.Chance(1, 4)
 	// op mix weights vary per run (swarm)
 	wAdd, wEdge, wRm, wRmE, wCopy, wRev, wOw := 3+r.Intn(4), 4+r.Intn(8), r.Intn(4), r.Intn(4), r.Intn(3), r.Intn(3), r.Intn(3)
 	tot := wAdd + wEdge + wRm + wRmE + wCopy + wRev + wOw
@@ -71,6 +72,9 @@ func (C19) Gen(r *simrt.RNG, tier string) core.Case {
 	for i := 1; i < n; i++ {
 		x := r.Intn(tot)
 		op := GOp{H: r.Intn(8), A: r.Intn(c.Pool), B: r.Intn(c.Pool), W: r.Intn(10)}
+		if negW && r.Chance(1, 4) {
+			op.W = -1 - r.Intn(3) // negative weights are legal for the structure (the resolver sets -1)
+		}
 		switch {
 		case x < wAdd:
 			op.Op = "add"
@@ -139,8 +143,8 @@ func (C19) Shrink(c core.Case) []core.Case {
 
 // store is the model of one underlying graph state.
 type store struct {
-	present map[int]int         // vertex -> generation of its representative
-	adj     map[[2]int]int      // edge -> weight
+	present map[int]int    // vertex -> generation of its representative
+	adj     map[[2]int]int // edge -> weight
 }
 
 type handle struct {
@@ -283,6 +287,9 @@ func (C19) Run(c core.Case, ctx *core.Ctx) []core.Violation {
 					if old, ok := h.st.adj[e]; ok && old != w {
 						ctx.St.Inc("c19_weight_overwritten")
 					}
+					if w < 0 {
+						ctx.St.Inc("c19_negative_weight")
+					}
 					h.st.adj[e] = w
 					if op.Op == "edge" {
 						h.g.AddEdge(vertex(op.A, ga), vertex(op.B, gb))
@@ -420,7 +427,13 @@ func compareHandle(h *handle, cc C19Case, sim *simrt.Sim, deep bool) (msg string
 			return ms.Edges[i][1] < ms.Edges[j][1]
 		})
 		fw := buildModel(ms).floyd()
-		for src := 0; src < n; src++ {
+		negative := false
+		for _, e := range ms.Edges {
+			if e[2] < 0 {
+				negative = true
+			}
+		}
+		for src := 0; src < n && !negative; src++ { // the search needs non-negative weights
 			if _, ok := h.st.present[src]; !ok {
 				continue
 			}
